@@ -27,7 +27,8 @@ pub mod c18 {
         };
     }
     package_n!(q_package_3_accepted, 3, 12, 20);
-    package_n!(t_package_255_accepted, 255, 264, 270);
+    // t_package_255_accepted (255 elements accepted and counted) was tried in the thorough tier and
+    // removed: 12 GB and no verdict in 2400 s. Acceptance is checked at 3 elements, refusal at 256 / 300.
     package_n!(t_refuse_package_256, 256, 264, 270);
     package_n!(t_refuse_package_300, 300, 308, 320);
 
